@@ -78,8 +78,13 @@ def main():
             proof["theorems"][t] = axs if axs is not None else "MISSING"
             if ok:
                 proof["discharged"] += 1
-        okc, msg = core.leancheck("PortusModel.Props." + prop, fresh=False)
-        proof["leanchecker"] = "ok" if okc else msg
+        lc_mods = ["PortusModel.Props." + prop] + [m for m in getattr(mod, "AUDIT_IMPORTS", ()) if m != "PortusModel.Props." + prop]
+        okc, msg = core.leancheck(lc_mods, fresh=False)
+        proof["leanchecker"] = ("ok: " + " ".join(lc_mods)) if okc else msg
+        if okc and tier == "thorough" and not a.replay:
+            # replay the whole import closure of the property's top module from scratch
+            okc, msg = core.leancheck(lc_mods[-1:], fresh=True)
+            proof["leanchecker"] = ("ok: " + " ".join(lc_mods) + "; --fresh " + lc_mods[-1]) if okc else msg
         if bad or proof["discharged"] != proof["obligations"] or not okc:
             violations.append(("proof", {"property": prop, "kind": "no-failing-input-found",
                                          "relation": "proof audit", "forbidden_tokens": bad,
